@@ -14,7 +14,9 @@ EXPLANATION = (
     "result is left symbolic (the exploration forks on it): on every path a device receives the message exactly once iff the message is "
     "client-originated, the device is not the sender and its accepts(message.device) was assumed true; accepts is asked about "
     "message.device; the message is handed over unmodified. C04.NOLEAK: on no path is a message handed to a client unless it is "
-    "device-originated per the protocol table (only getProperties is both). C04.ACC: Driver.accepts evaluated over {none, own name, "
+    "device-originated per the protocol table (only getProperties is both). C04.HIST: two consecutive messages with different senders on one "
+    "router (built by interpreting Router.__init__ and the register functions, helper methods inlined): the routing of the second is "
+    "independent of the first. C04.ACC: Driver.accepts evaluated over {none, own name, "
     "other name} = (T,T,F); a constant-true implementation is the catch-all device; every concrete routing.Device subclass overrides "
     "accepts and message_from_client. C04.WRITE is shared with C05.WRITE (who may write the tables)."
 )
